@@ -208,7 +208,7 @@ def classify(res, lines, unit):
     for k in ('assigns', 'loop_invariant', 'loop_assigns', 'loop_decreases', 'decreases', 'unwind', 'recursion', 'loop_step'):
         if '.' + k in prop:
             return 'A', '%s: %s [%s]' % (k, desc, srcline)
-    if 'no-body' in prop or 'no body' in desc:
+    if 'no-body' in prop or 'no body' in desc or 'undefined function' in desc:
         return 'A', desc
     # pointer / bounds / overflow / division checks
     return 'P', 'memory/arithmetic safety in %s: %s [%s]' % (fn, desc, srcline)
